@@ -26,7 +26,11 @@ func noRepeat(vals [][]byte) (int, string) {
 	seen := make(map[string]int, len(vals))
 	for i, v := range vals {
 		if j, ok := seen[string(v)]; ok {
-			return len(seen), fmt.Sprintf("value %x produced by operation #%d and again by #%d", v, j, i)
+			shown := fmt.Sprintf("%x", v)
+			if len(v) > 48 {
+				shown = fmt.Sprintf("%x... (%d bytes)", v[:48], len(v))
+			}
+			return len(seen), fmt.Sprintf("value %s produced by operation #%d and again by #%d", shown, j, i)
 		}
 		seen[string(v)] = i
 	}
